@@ -76,6 +76,9 @@ pub struct ReqSpec {
     pub method: String,
     /// target after the `/@NONCE@@/r<id>` marker
     pub path: String,
+    /// text before the marker (absolute-form targets: "http://host:8080")
+    #[serde(default)]
+    pub target_prefix: String,
     /// version token, e.g. "HTTP/1.1"
     pub version: String,
     /// complete ordered header list, including framing / Connection / Expect headers
@@ -93,11 +96,11 @@ pub fn body_pattern(id: u32, len: usize) -> Vec<u8> {
 
 impl ReqSpec {
     pub fn simple(id: u32) -> ReqSpec {
-        ReqSpec { id, method: "GET".into(), path: String::new(), version: "HTTP/1.1".into(), headers: vec![Hdr::new("Host", "h")], framing: Framing::None, mal: None, body_override: None }
+        ReqSpec { id, method: "GET".into(), path: String::new(), target_prefix: String::new(), version: "HTTP/1.1".into(), headers: vec![Hdr::new("Host", "h")], framing: Framing::None, mal: None, body_override: None }
     }
 
     pub fn target(&self) -> String {
-        format!("/{}/r{}{}", std::str::from_utf8(NONCE_PLACEHOLDER).unwrap(), self.id, self.path)
+        format!("{}/{}/r{}{}", self.target_prefix, std::str::from_utf8(NONCE_PLACEHOLDER).unwrap(), self.id, self.path)
     }
 
     /// length of the designated body
@@ -295,13 +298,13 @@ pub fn render(conv: &Conversation) -> Rendered {
             Some(Malform::ReqLineFields(_)) => {
                 line.extend_from_slice(rq.method.as_bytes());
                 line.push(b' ');
-                out.r.nonce_offsets.push(start + line.len() + 1);
+                out.r.nonce_offsets.push(start + line.len() + 1 + rq.target_prefix.len());
                 line.extend_from_slice(target.as_bytes());
             }
             _ => {
                 line.extend_from_slice(rq.method.as_bytes());
                 line.push(b' ');
-                out.r.nonce_offsets.push(start + line.len() + 1);
+                out.r.nonce_offsets.push(start + line.len() + 1 + rq.target_prefix.len());
                 line.extend_from_slice(target.as_bytes());
                 line.push(b' ');
                 line.extend_from_slice(version.as_bytes());
